@@ -26,3 +26,36 @@ fn(B + 'de_casteljau', properties=['C19'],
    ensures=['dot3(ha, result) <= hb',                       # stays in the convex hull of the control points
             'implies(t == 0, result == P[0])', 'implies(t == 1, result == P[len(P) - 1])',     # interpolates the end control points
             ])
+
+# ---- tensor-product patch: a row of curve evaluations, then one curve evaluation across the rows
+BP = B + 'BezierPatch'
+klass(BP, fields={'pts': 'list[list[Vec3]]'})
+predicate('net_ok', 'p', 'len(p.pts) >= 1 and all(len(p.pts[i]) >= 1 for i in range(len(p.pts)))')
+predicate('net_in', 'p, ha, hb', 'all(all(dot3(ha, p.pts[i][k]) <= hb for k in range(len(p.pts[i]))) for i in range(len(p.pts)))')
+fn(BP + '._evaluate_row', properties=['C19'], params={'u': 'real'}, returns='list[Vec3]',
+   ghost_params={'ha': 'Vec3', 'hb': 'real'},
+   requires=['net_ok(self)', 'net_in(self, ha, hb)'],
+   raises={'InvalidRangeArgumentError': 'not (0 <= u and u <= 1)'},
+   locals={'acc_c0': 'list[Vec3]'},
+   modifies=[],
+   loops={'c0': loop(invariant=['len(acc_c0) == it_c0', 'implies(it_c0 > 0, 0 <= u and u <= 1)',
+                                'all(dot3(ha, acc_c0[i]) <= hb for i in range(it_c0))',
+                                'implies(u == 0, all(acc_c0[i] == self.pts[i][0] for i in range(it_c0)))',
+                                'implies(u == 1, all(acc_c0[i] == self.pts[i][len(self.pts[i]) - 1] for i in range(it_c0)))'])},
+   # one point per ROW of the control net (whatever the number of columns), each in the hull, end columns interpolated
+   ensures=['len(result) == len(self.pts)',
+            'all(dot3(ha, result[i]) <= hb for i in range(len(self.pts)))',
+            'implies(u == 0, all(result[i] == self.pts[i][0] for i in range(len(self.pts))))',
+            'implies(u == 1, all(result[i] == self.pts[i][len(self.pts[i]) - 1] for i in range(len(self.pts))))'])
+
+fn(BP + '.evaluate', properties=['C19'], params={'u': 'real', 'v': 'real'}, returns='Vec3',
+   ghost_params={'ha': 'Vec3', 'hb': 'real'},
+   requires=['net_ok(self)', 'net_in(self, ha, hb)'],
+   raises={'InvalidRangeArgumentError': 'not (0 <= u and u <= 1 and 0 <= v and v <= 1)'},
+   modifies=[],
+   ensures=['dot3(ha, result) <= hb',         # in the convex hull of the control net
+            # the four corners of the net are interpolated
+            'implies(u == 0 and v == 0, result == self.pts[0][0])',
+            'implies(u == 1 and v == 0, result == self.pts[0][len(self.pts[0]) - 1])',
+            'implies(u == 0 and v == 1, result == self.pts[len(self.pts) - 1][0])',
+            'implies(u == 1 and v == 1, result == self.pts[len(self.pts) - 1][len(self.pts[len(self.pts) - 1]) - 1])'])
